@@ -497,7 +497,9 @@ func runRow(t *testing.T, r *row) {
 			return "counters"
 		case rel == "mode":
 			return "other:mode"
-		case strings.HasPrefix(rel, "upload"):
+		case rel == "upload":
+			return "uploaddir"
+		case strings.HasPrefix(rel, "upload/"):
 			return "other:upload"
 		case strings.HasPrefix(rel, "debug"):
 			return "other:debug"
@@ -540,6 +542,6 @@ func runRow(t *testing.T, r *row) {
 		"localOK": r.LocalOK, "sidecars": sidecars, "uploaders": uploaders, "nested": nested, "launched": launched,
 		"acquired": acquired, "wrote": wrote, "tokenBefore": tokenBefore, "tokenAfter": tokenAfter, "changed": changed,
 		"entries": entries, "rootExit": rootExit, "returned": returned, "guards": guards, "timedOut": timedOut,
-		"rootsLogged": rootsLogged, "n": n, "processes": len(exits)}
+		"rootsLogged": rootsLogged, "n": n, "processes": len(exits), "fatal": rootExit != 0 && rootExit != -2}
 	rt.Out(rec)
 }
